@@ -52,7 +52,11 @@ type shaper struct {
 	terms       []string // terms to get-value
 	n           int
 	unsupported []string
+	nodes       int             // nodes shaped so far (a model request is abandoned beyond maxReplayNodes)
+	visiting    map[string]bool // struct sorts on the current path (recursive types are not replayed)
 }
+
+const maxReplayNodes = 4000
 
 const replaySliceBound = 3
 const replayMapBound = 3
@@ -67,6 +71,11 @@ func (s *shaper) shape(t types.Type, term string, depth int) *node {
 	S := s.vc.S
 	srt := S.Sort(t)
 	nd := &node{t: t, term: term, extra: map[string]string{}}
+	s.nodes++
+	if s.nodes > maxReplayNodes {
+		nd.kind = "unsupported"
+		return nd
+	}
 	switch srt {
 	case "Bool":
 		nd.kind = "bool"
@@ -119,6 +128,16 @@ func (s *shaper) shape(t types.Type, term string, depth int) *node {
 	}
 	switch u := t.Underlying().(type) {
 	case *types.Struct:
+		if s.visiting == nil {
+			s.visiting = map[string]bool{}
+		}
+		if s.visiting[srt] {
+			// a recursive type (e.g. cobra.Command): inputs of this shape are not rendered
+			nd.kind = "unsupported"
+			return nd
+		}
+		s.visiting[srt] = true
+		defer delete(s.visiting, srt)
 		nd.kind = "struct"
 		for i := 0; i < u.NumFields(); i++ {
 			nd.children = append(nd.children, s.shape(u.Field(i).Type(), fmt.Sprintf("(%s %s)", fieldSel(srt, u.Field(i).Name()), term), depth))
